@@ -40,6 +40,7 @@ func Check() *common.Check {
 			"non-trivial = a pooled node released earlier in the history is part of a tree handed out later in the same history (the pools really recycled). " +
 			"release audit: one case per statement of the sqlgen space (quick: clause / DML / DDL / hole / nesting sections; thorough: all but the 3/4-operator shapes): parse, release through ReleaseAST / formatter.Format / parser.ValidateBytes, drain every pool (no object twice, every drained object indistinguishable from a new one, no two pooled objects or retained backing arrays sharing memory), then hold two trees of the statement together (disjoint pooled nodes, equal to the tree from empty pools) and run ten read-only consumers over one of them (serialisers, traversal, the six extractors, the scanner: the tree is unchanged after each). " +
 			"token hand-back: one case per (contiguous sub-slice [i:j] of the token list of a four-statement script with a failing and an unfinished statement, cut with spare capacity or with cap == len) x 7 parser-token and 4 tokenizer-token entry points (Parse, ParseContext, ParseWithPositions, ParseWithRecovery, ParseMultiWithRecovery, pooled parser, configured parser; the FromModelTokens family): every element of the caller's backing array, the spare capacity included, is the same afterwards. " +
+			"big-tree release: one case per (shape wide / deep / wide-of-deep) x (container: call arguments, IN list, list, tuple, array, CASE whens, subscript indices) x (13 child kinds) x (widths and depths at limit-1, limit, limit+1 of ast.MaxCleanupDepth / ast.MaxWorkQueueSize; thorough adds limit/2 and 2*limit) x (PutExpression, ReleaseAST): the tree is released by ONE call from empty pools and every pool is drained with the history audit (what the bounded release loop does put into a pool is indistinguishable from new). " +
 			"states = distinct (held values, per-tree node count and recycled-node count) tuples observed after a step",
 		Assume: []string{
 			"sync.Pool on a single P (GOMAXPROCS=1) with the collector off returns the objects that were put; two runtime.GC() calls empty every pool",
@@ -79,6 +80,7 @@ func Check() *common.Check {
 			}
 			enumerateHistories(e, targets, pooled, depth)
 			enumerateReleaseAudit(e, targets, pooled)
+			enumerateBigTrees(e, targets, pooled)
 			enumerateTokenHandBack(e)
 		},
 	}
